@@ -154,6 +154,29 @@ func enlargeNumbers(t *rapid.T, s GenomeSpec, room bool) GenomeSpec {
 			maxInn = m.Innov
 		}
 	}
+	// the genome's own id and its trait ids are numbers in the files as well
+	s.Id = rapid.SampledFrom([]int{s.Id, s.Id, 65536 + s.Id, math.MaxInt32, 1 << 40}).Draw(t, "large genome id")
+	if toff := rapid.SampledFrom([]int{0, 0, 300, 70000}).Draw(t, "trait id offset"); toff > 0 {
+		s.Traits = append([]TraitSpec(nil), s.Traits...)
+		for i := range s.Traits {
+			s.Traits[i].Id += toff
+		}
+		for i := range s.Nodes {
+			if s.Nodes[i].Trait != 0 {
+				s.Nodes[i].Trait += toff
+			}
+		}
+		for i := range s.Genes {
+			if s.Genes[i].Trait != 0 {
+				s.Genes[i].Trait += toff
+			}
+		}
+		for i := range s.Modules {
+			if s.Modules[i].Trait != 0 {
+				s.Modules[i].Trait += toff
+			}
+		}
+	}
 	ioffs := []int64{0, 70000, 1 << 31, 1 << 40, math.MaxInt64 - maxInn - 1}
 	if room {
 		ioffs = []int64{70000, 1 << 31, 1 << 40, 1 << 53, 1 << 62}
